@@ -498,6 +498,42 @@ def _writes_var(n, did):
             yield x
 
 
+def _counted_through_flag(root, fi, wl, blk, r, counter):
+    """`done = true;` in the block of the operation, `if(done) counter++;` later in the same pass, and every other assignment of
+    the flag is `false`: the counter is incremented exactly on the passes that split / merged an edge"""
+    if blk is None:
+        return False
+    flags = []
+    for st in blk.get("c", []):
+        e = strip(st)
+        if e.get("k") == "BinaryOperator" and e.get("op") == "=" and strip(e["c"][0]).get("k") == "DeclRefExpr" and strip(e["c"][1]).get("k") == "CXXBoolLiteralExpr" and strip(e["c"][1]).get("v") and fi.order[id(e)] > fi.order[id(r)]:
+            flags.append(strip(e["c"][0])["ref"]["did"])
+    for fd in flags:
+        # every assignment of the flag: true only in a block that performs an operation
+        ok = True
+        for a in walk(wl["body"]):
+            if a.get("k") == "BinaryOperator" and a.get("op") == "=" and strip(a["c"][0]).get("k") == "DeclRefExpr" and strip(a["c"][0])["ref"].get("did") == fd:
+                v = strip(a["c"][1])
+                if v.get("k") != "CXXBoolLiteralExpr":
+                    ok = False
+                elif v.get("v"):
+                    b2 = fi.enclosing(a, ("CompoundStmt",))
+                    if b2 is None or not any(x.get("k") == "CXXMemberCallExpr" and x.get("callee") in ("local_mesh_refiner::split_edge", "local_mesh_refiner::merge_edge") for x in walk(b2)):
+                        ok = False
+        if not ok:
+            continue
+        from ..model import facts_at
+        for inc in _writes_var(wl["body"], counter["did"]):
+            if not ((inc.get("k") == "UnaryOperator" and "++" in inc.get("op", "")) or (inc.get("k") == "CompoundAssignOperator" and inc.get("op") == "+=")):
+                continue
+            if fi.order[id(inc)] < fi.order[id(r)]:
+                continue
+            fs = facts_at(root, fi, inc, stop_at=wl)
+            if any(strip(a_).get("k") == "DeclRefExpr" and strip(a_)["ref"].get("did") == fd and t_ for a_, t_ in fs) and len([1 for a_, t_ in fs if not (a_.get("k") == "<switch-case>")]) >= 1:
+                return True
+    return False
+
+
 def bounded(rep, prog):
     rule = "C11.bounded"
     root = prog.fn("local_mesh_refiner::refine_mesh")
@@ -545,6 +581,9 @@ def bounded(rep, prog):
         incs = [x for st in (blk.get("c", []) if blk else []) for x in _writes_var(st, counter["did"]) if x.get("k") == "UnaryOperator" and "++" in x.get("op", "") or False]
         incs = [x for st in (blk.get("c", []) if blk else []) for x in _writes_var(st, counter["did"])]
         good = [x for x in incs if (x.get("k") == "UnaryOperator" and "++" in x.get("op", "")) or (x.get("k") == "CompoundAssignOperator" and x.get("op") == "+=")]
+        if not incs and _counted_through_flag(root, fi, wl, blk, r, counter):
+            rep.ok(rule, prog, root, r, "%s is counted: its block sets a flag that is true only where an operation was done, and '%s++' runs under that flag before the next pass" % (r["callee"].split("::")[-1], counter["name"]))
+            continue
         if good and len(good) == len(incs):
             rep.ok(rule, prog, root, r, "%s is counted (%s++ in the same block)" % (r["callee"].split("::")[-1], counter["name"]))
         else:
